@@ -25,9 +25,16 @@ scheduler `harness/sched.py` blocks the real code at exactly these points:
   release   `os.replace(c_filename, c_filename.with_suffix(".c.failed"))` in the
             `except Exception` block of compile_forms (errors swallowed)
 
-The model mirrors the code AS IT IS: when `ffibuilder.compile` raises, the
-`with redirect_stdout` block restores `sys.stdout`, but nothing restores
-`root_logger.handlers` (there is no try/finally around lines 397-416).
+The model mirrors the code AS IT IS (after /repo commit 9fb79f1): everything from
+`ffibuilder.compile` to the creation of the ready marker is inside
+`try: ... finally: root_logger.handlers = old_handlers`.  When `ffibuilder.compile` raises, the
+`with redirect_stdout` block restores `sys.stdout` (silently, no gate), then the `finally` block
+restores the handlers (op `restore`, control state `bFailRestore`), then the exception reaches the
+`except` block of compile_forms (op `release`).  The same holds when `open(ready_name,"x")` raises.
+A failure of code generation happens before the swap and goes to `release` directly.
+
+A process may issue a further request after its previous one has returned or raised (choice
+`again`): its process-global state is whatever the previous request left behind.
 -/
 namespace Ffcx.Jit
 
@@ -81,20 +88,22 @@ inductive Pc where
   | wPoll (i : Nat)            -- waiter, `i` unsuccessful polls so far; next op: poll
   | wFind | wLoad
   | bGen | bSwap | bSrc | bObj | bLink1 | bLink2 | bUnredir | bMark | bRestore | bFind | bLoad
-  | bFail (c : Cause)          -- in the `except` block; next op: release
+  | bFailRestore (c : Cause)   -- exception inside the `try` of `_compile_objects`; next op: restore
+  | bFail (c : Cause)          -- in the `except` block of compile_forms; next op: release
   | done (built : Bool) (so : So)  -- returned; `so` = state of the file that was imported
   | raised (e : Err)
   | dead                       -- killed
   deriving DecidableEq, Repr, Inhabited
 
-/-- Adversarial choice accompanying a step. -/
+/-- Adversarial choice accompanying a step.  `again`: a process whose request has returned or
+raised issues a new request (for a request still in progress `again` is an ordinary step). -/
 inductive Choice where
-  | none | fail | kill
+  | none | fail | kill | again
   deriving DecidableEq, Repr, Inhabited
 
 inductive Op where
   | lock | poll | find | load | gen | swap | src | obj | link1 | link2 | unredir | mark | restore
-  | release | kill | none
+  | release | kill | again | none
   deriving DecidableEq, Repr, Inhabited
 
 inductive Res where
@@ -134,12 +143,13 @@ def Pc.terminal : Pc → Bool
 release or death). -/
 def Pc.isB : Pc → Bool
   | .bGen | .bSwap | .bSrc | .bObj | .bLink1 | .bLink2 | .bUnredir | .bMark | .bRestore | .bFind
-  | .bLoad | .bFail _ => true
+  | .bLoad | .bFailRestore _ | .bFail _ => true
   | _ => false
 
 /-- Builder states before the marker has been written. -/
 def Pc.isPre : Pc → Bool
-  | .bGen | .bSwap | .bSrc | .bObj | .bLink1 | .bLink2 | .bUnredir | .bMark | .bFail _ => true
+  | .bGen | .bSwap | .bSrc | .bObj | .bLink1 | .bLink2 | .bUnredir | .bMark | .bFailRestore _
+  | .bFail _ => true
   | _ => false
 
 /-- States whose next step belongs to code generation / C compilation. -/
@@ -152,9 +162,10 @@ def Pc.isLoad : Pc → Bool
   | .wLoad | .bLoad => true
   | _ => false
 
-/-- Exit of `ffibuilder.compile` by exception: `redirect_stdout.__exit__` runs, the handlers stay. -/
+/-- Exit of `ffibuilder.compile` by exception: `redirect_stdout.__exit__` runs; the request is now
+in the `finally` block that restores the handlers. -/
 def Proc.compileRaises (p : Proc) : Proc :=
-  { p with pc := .bFail .compile, g := { p.g with stdout := p.saved.stdout } }
+  { p with pc := .bFailRestore .compile, g := { p.g with stdout := p.saved.stdout } }
 
 /-- The next operation of a live (not terminal, not killed) request whose control state is the
 last argument (`p.pc`); `c = .fail` makes a fallible operation raise. -/
@@ -189,13 +200,15 @@ def stepLive (timeout : Nat) (fs : FS) (p : Proc) (c : Choice) : Pc → FS × Pr
     else ({ fs with so := .complete }, { p with pc := .bUnredir }, ⟨.link2, .ok⟩)
   | .bUnredir => (fs, { p with pc := .bMark, g := { p.g with stdout := p.saved.stdout } }, ⟨.unredir, .unit⟩)
   | .bMark =>
-    if fs.marker then (fs, { p with pc := .bFail .marker }, ⟨.mark, .exists_⟩)
+    if fs.marker then (fs, { p with pc := .bFailRestore .marker }, ⟨.mark, .exists_⟩)
     else ({ fs with marker := true }, { p with pc := .bRestore }, ⟨.mark, .ok⟩)
   | .bRestore => (fs, { p with pc := .bFind, g := { p.g with handlers := p.saved.handlers } }, ⟨.restore, .unit⟩)
   | .bFind =>
     if fs.so = .absent then (fs, { p with pc := .raised .notFound }, ⟨.find, .notfound⟩)
     else (fs, { p with pc := .bLoad }, ⟨.find, .found⟩)
   | .bLoad => (fs, { p with pc := .done true fs.so }, ⟨.load, .so fs.so⟩)
+  | .bFailRestore cause =>
+    (fs, { p with pc := .bFail cause, g := { p.g with handlers := p.saved.handlers } }, ⟨.restore, .unit⟩)
   | .bFail cause =>
     if fs.lock = .absent then (fs, { p with pc := .raised (.build cause) }, ⟨.release, .enoent⟩)
     else ({ fs with lock := .absent, failed := true }, { p with pc := .raised (.build cause) }, ⟨.release, .ok⟩)
@@ -203,7 +216,9 @@ def stepLive (timeout : Nat) (fs : FS) (p : Proc) (c : Choice) : Pc → FS × Pr
 
 /-- One step of one process: new file system, new process, observable. -/
 def stepProc (timeout : Nat) (fs : FS) (p : Proc) (c : Choice) : FS × Proc × Obs :=
-  if p.pc.terminal then (fs, p, ⟨.none, .unit⟩)
+  if p.pc.terminal then
+    if c = .again ∧ p.pc ≠ .dead then (fs, { p with pc := .idle, polls := 0 }, ⟨.again, .unit⟩)
+    else (fs, p, ⟨.none, .unit⟩)
   else if c = .kill then (fs, { p with pc := .dead }, ⟨.kill, .unit⟩)
   else stepLive timeout fs p c p.pc
 
@@ -266,6 +281,7 @@ def fuel (timeout : Nat) : Pc → Nat
   | .wLoad => 1
   | .bGen => 12 | .bSwap => 11 | .bSrc => 10 | .bObj => 9 | .bLink1 => 8 | .bLink2 => 7
   | .bUnredir => 6 | .bMark => 5 | .bRestore => 4 | .bFind => 3 | .bLoad => 2
+  | .bFailRestore _ => 2
   | .bFail _ => 1
   | .done _ _ | .raised _ | .dead => 0
 
